@@ -536,6 +536,10 @@ where
         }
     }
     sched::PERTURB.store(0, Ordering::Relaxed);
+    // faults are injected into the concurrent phase only
+    PROBE.panic_at.store(-1, Ordering::Relaxed);
+    CLONE_PANIC_AT.store(-1, Ordering::Relaxed);
+    CLOSURE_PANIC_AT.store(-1, Ordering::Relaxed);
 
     // ---- finish: convert back or drop, everything joined (no pull in flight)
     let mut remainder: Option<Vec<Ident>> = None;
